@@ -1,9 +1,9 @@
 (* Extraction of the executable models for the thorough-tier correspondence driver.
    ExtrOcamlBasic only (bool, option, list, prod, unit, sumbool -> OCaml's own); Z, N, positive and nat
    stay the extracted inductives.  No Extract Constant. *)
-Require Import Sx RunC11 RunC17 RunC16 RunC14 RunC02 RunC01 RunTok RunC05 RunVar RunC08 RunC10 RunC18 RunC20 RunC19.
+Require Import Sx RunC11 RunC17 RunC16 RunC14 RunC02 RunC01 RunTok RunC05 RunVar RunC08 RunC10 RunC18 RunC20 RunC19 RunC03.
 Require Extraction.
 Require Import ExtrOcamlBasic.
 From Coq Require Import ZArith.
 Extraction Language OCaml.
-Extraction "model.ml" sx_eqb check_case Z.add Z.mul Z.opp Z.div_eucl Z.ltb model_C11 model_C17 model_C16 model_C14 model_C02 model_C01 model_TOK model_C05 model_C06 model_C07 model_C08 model_C10 model_C18 model_C20 model_C19.
+Extraction "model.ml" sx_eqb check_case Z.add Z.mul Z.opp Z.div_eucl Z.ltb model_C11 model_C17 model_C16 model_C14 model_C02 model_C01 model_TOK model_C05 model_C06 model_C07 model_C08 model_C10 model_C18 model_C20 model_C19 model_C03.
